@@ -177,4 +177,120 @@ Section Bind.
       + exists Q1, H, 0, 0. right. exact Cc.
   Qed.
 
+  (* what acceptance establishes about the statement's shape *)
+  Lemma core_proof_verify_accepts' pk p g header ph dm di api :
+    N.of_nat (length (p_m_cap E p) + length di) <= usize_max ->
+    core_proof_verify E pk p g header ph dm di api = Ok tt ->
+    exists ir, proof_verify_init E pk p g header dm di api = Ok ir /\
+      proof_challenge_calculate E ir di dm ph api = Ok (p_chal E p) /\
+      length dm = length di /\ Forall (fun i => i <= usize_max) di /\ len di <= usize_max.
+  Proof.
+    intros Hfit. unfold core_proof_verify.
+    destruct (proof_verify_init E pk p g header dm di api) as [ir| | |] eqn:Ei; cbn [bind]; try discriminate.
+    destruct (proof_challenge_calculate E ir di dm ph api) as [ch| | |] eqn:Ec; cbn [bind]; try discriminate.
+    destruct (feqb S (p_chal E p) ch) eqn:Eq; cbn [negb]; [|discriminate]. intros _.
+    apply (feqb_true E LW) in Eq. subst ch. exists ir. split; [reflexivity|]. split; [exact Ec|].
+    unfold proof_verify_init in Ei.
+    destruct (g1_eqb P _ _ || g1_eqb P _ _ || g1_eqb P _ _)%bool; [discriminate|].
+    destruct (existsb _ di) eqn:Eex; [discriminate|].
+    destruct (negb (Nat.eqb (length dm) (length di))) eqn:El; [discriminate|].
+    destruct (negb (Nat.eqb (length (g_values E g)) _)) eqn:Eg; [discriminate|].
+    apply negb_false_iff, Nat.eqb_eq in El.
+    split; [exact El|].
+    rewrite existsb_ge_false in Eex.
+    split.
+    - apply Forall_forall. intros i Hi. specialize (Eex i Hi). lia.
+    - unfold len. lia.
+  Qed.
+
+  (* ================================================================ C04: statement binding of proofs *)
+  Lemma f_to_be_inj x y : f_to_be S x = f_to_be S y -> x = y.
+  Proof. intros H. pose proof (L_f_dec_enc E LW x) as Hx. rewrite H, (L_f_dec_enc E LW y) in Hx. inversion Hx; reflexivity. Qed.
+  Lemma g1_enc_inj x y : g1_enc P x = g1_enc P y -> x = y.
+  Proof. intros H. pose proof (L_g1_dec_enc E LW x) as Hx. rewrite H, (L_g1_dec_enc E LW y) in Hx. inversion Hx; reflexivity. Qed.
+
+  Definition pair_octets (p : N * Fd) : bytes := i2osp8 (fst p) ++ f_to_be S (snd p).
+  Lemma pair_octets_length p : length (pair_octets p) = 40%nat.
+  Proof. unfold pair_octets. rewrite app_length, i2osp8_length, (L_f_enc_len E LW). reflexivity. Qed.
+
+  Lemma pairs_inj (l l' : list (N * Fd)) : length l = length l' ->
+    Forall (fun p => fst p <= usize_max) l -> Forall (fun p => fst p <= usize_max) l' ->
+    forall t t', flat_map pair_octets l ++ t = flat_map pair_octets l' ++ t' -> l = l' /\ t = t'.
+  Proof.
+    revert l'. induction l as [|p l IH]; intros [|q l'] Hl F1 F2 t t' H; cbn in Hl; try discriminate; [auto|].
+    cbn [flat_map] in H. rewrite <- !app_assoc in H.
+    apply app_eq_len_split in H as [Hpq H]; [|rewrite !pair_octets_length; reflexivity].
+    inversion F1; inversion F2; subst.
+    destruct (IH l' ltac:(lia) ltac:(assumption) ltac:(assumption) t t' H) as [-> ->].
+    split; [|reflexivity]. f_equal.
+    unfold pair_octets in Hpq. apply app_eq_len_split in Hpq as [Hi Hm]; [|rewrite !i2osp8_length; reflexivity].
+    destruct p as [i m], q as [j m']. cbn in *. apply i2osp8_inj in Hi; [|assumption|assumption]. apply f_to_be_inj in Hm. subst. reflexivity.
+  Qed.
+
+  Lemma combine_eq_split (a a' : list N) (b b' : list Fd) : length a = length b -> length a' = length b' ->
+    combine a b = combine a' b' -> a = a' /\ b = b'.
+  Proof.
+    revert a' b b'. induction a as [|x a IH]; intros [|x' a'] [|y b] [|y' b'] H1 H2 H; cbn in *; try discriminate; [auto|].
+    inversion H; subst. destruct (IH a' b b') as [-> ->]; try lia; auto.
+  Qed.
+
+  (* the octets hashed into the challenge determine the statement *)
+  Lemma challenge_octets_inj ir ir' di di' dm dm' ph ph' :
+    length dm = length di -> length dm' = length di' ->
+    Forall (fun i => i <= usize_max) di -> Forall (fun i => i <= usize_max) di' ->
+    len di <= usize_max -> len di' <= usize_max ->
+    len (option_default [] ph) <= usize_max -> len (option_default [] ph') <= usize_max ->
+    challenge_octets E ir di dm ph = challenge_octets E ir' di' dm' ph' ->
+    di = di' /\ dm = dm' /\ i_domain E ir = i_domain E ir' /\ option_default [] ph = option_default [] ph' /\
+    i_T1 E ir = i_T1 E ir' /\ i_T2 E ir = i_T2 E ir'.
+  Proof.
+    intros L1 L2 F1 F2 B1 B2 P1 P2 H. unfold challenge_octets in H.
+    apply app_eq_len_split in H as [HR H]; [|rewrite !i2osp8_length; reflexivity].
+    apply i2osp8_inj in HR; [|assumption|assumption].
+    assert (HR' : length di = length di') by (unfold len in HR; lia).
+    fold pair_octets in H.
+    change (fun p : N * Fd => i2osp8 (fst p) ++ f_to_be S (snd p)) with pair_octets in H.
+    apply pairs_inj in H as [Hc H].
+    2:{ rewrite !combine_length. lia. }
+    2:{ apply Forall_forall. intros [i m] Hin. apply in_combine_l in Hin. rewrite Forall_forall in F1. apply F1; exact Hin. }
+    2:{ apply Forall_forall. intros [i m] Hin. apply in_combine_l in Hin. rewrite Forall_forall in F2. apply F2; exact Hin. }
+    apply combine_eq_split in Hc as [-> ->]; [|lia|lia].
+    apply app_eq_len_split in H as [_ H]; [|rewrite !(L_g1_enc_len E LW); reflexivity].
+    apply app_eq_len_split in H as [_ H]; [|rewrite !(L_g1_enc_len E LW); reflexivity].
+    apply app_eq_len_split in H as [_ H]; [|rewrite !(L_g1_enc_len E LW); reflexivity].
+    apply app_eq_len_split in H as [HT1 H]; [|rewrite !(L_g1_enc_len E LW); reflexivity].
+    apply app_eq_len_split in H as [HT2 H]; [|rewrite !(L_g1_enc_len E LW); reflexivity].
+    apply app_eq_len_split in H as [Hd H]; [|rewrite !(L_f_enc_len E LW); reflexivity].
+    apply app_eq_len_split in H as [_ Hph]; [|rewrite !i2osp8_length; reflexivity].
+    apply g1_enc_inj in HT1, HT2. apply f_to_be_inj in Hd. repeat split; assumption || reflexivity.
+  Qed.
+
+  (* one proof object accepted for two statements over the same generator set: either the statements agree on the
+     disclosed positions, the disclosed message scalars, the presentation header and the domain, or the two
+     challenge inputs are an explicit collision of the challenge hash *)
+  Theorem proof_statement_binding pk p g header header' ph ph' dm dm' di di' api :
+    core_proof_verify E pk p g header ph dm di api = Ok tt ->
+    core_proof_verify E pk p g header' ph' dm' di' api = Ok tt ->
+    len (option_default [] ph) <= usize_max -> len (option_default [] ph') <= usize_max ->
+    N.of_nat (length (p_m_cap E p) + length di) <= usize_max -> N.of_nat (length (p_m_cap E p) + length di') <= usize_max ->
+    exists ir ir',
+      proof_verify_init E pk p g header dm di api = Ok ir /\ proof_verify_init E pk p g header' dm' di' api = Ok ir' /\
+      ((di = di' /\ dm = dm' /\ option_default [] ph = option_default [] ph' /\ i_domain E ir = i_domain E ir') \/
+       Collision (fun x => f_of_okm S (expand E x (api ++ c_h2s (cs E)) 48))
+                 (challenge_octets E ir di dm ph) (challenge_octets E ir' di' dm' ph')).
+  Proof.
+    intros V1 V2 P1 P2 Hf1 Hf2.
+    apply (core_proof_verify_accepts' pk p g header ph dm di api Hf1) in V1 as [ir [I1 [C1 [Ldm [Fdi Bdi]]]]].
+    apply (core_proof_verify_accepts' pk p g header' ph' dm' di' api Hf2) in V2 as [ir' [I2 [C2 [Ldm' [Fdi' Bdi']]]]].
+    exists ir, ir'. split; [exact I1|]. split; [exact I2|].
+    unfold proof_challenge_calculate in C1, C2.
+    destruct (negb (Nat.eqb (length dm) (length di))); [discriminate|].
+    destruct (negb (Nat.eqb (length dm') (length di'))); [discriminate|].
+    unfold hash_to_scalar in C1, C2. destruct (Nat.ltb _ _); [discriminate|].
+    inversion C1 as [H1]. inversion C2 as [H2].
+    destruct (list_eq_dec N.eq_dec (challenge_octets E ir di dm ph) (challenge_octets E ir' di' dm' ph')) as [Heq|Hneq].
+    - left. apply challenge_octets_inj in Heq; try assumption. tauto.
+    - right. split; [exact Hneq|]. rewrite H1, H2. reflexivity.
+  Qed.
+
 End Bind.
